@@ -259,7 +259,8 @@ pub fn reproduces(prop: &str, c: &Concrete, extra: &J, preamble: &str, id: &str)
         "C12" => crate::c12::reevaluate(c, extra),
         _ => Vec::new(),
     };
-    vs.into_iter().find(|v| v.id() == id)
+    // "*" = any violation at all (pinned regression scenarios must be entirely clean)
+    vs.into_iter().find(|v| id == "*" || v.id() == id)
 }
 
 pub fn replay_doc(env_prop: &str, batch_seed: u64, index: u64, seed: u64, f: &Found, minimised: Option<(&Concrete, usize)>) -> J {
